@@ -697,9 +697,17 @@ pub fn apply_defect(kind: &'static str, m: &mut Message, cx: &FaultCtx, t: &mut 
     let rule = match kind {
         "bad-path-escape" => {
             let e = BAD_ESCAPES[t.below(BAD_ESCAPES.len())];
-            let mut v = b"/q".to_vec();
-            v.extend(e);
-            m.quirks.path_suffix = Some(v);
+            if !cx.node.cfg.s3 && t.chance(3) {
+                // the malformed segment is later cancelled by a "..": it is malformed all the same
+                let mut v = b"/cancelled".to_vec();
+                v.extend(e);
+                v.extend([&b"/.."[..], b"/%2e%2E", b"/x/../.."][t.below(3)]);
+                m.quirks.path_prefix = Some(v);
+            } else {
+                let mut v = b"/q".to_vec();
+                v.extend(e);
+                m.quirks.path_suffix = Some(v);
+            }
             Rule::Path
         }
         "path-climb" => {
@@ -735,7 +743,7 @@ pub fn apply_defect(kind: &'static str, m: &mut Message, cx: &FaultCtx, t: &mut 
             Rule::BothCarriers
         }
         "bad-algorithm" => {
-            m.quirks.algorithm = Some(["AWS4-HMAC-SHA512", "AWS3", "aws4-hmac-sha256x", "AWS4-HMAC-SHA25"][t.below(4)].to_string());
+            m.quirks.algorithm = Some(["AWS4-HMAC-SHA512", "AWS3", "aws4-hmac-sha256x", "AWS4-HMAC-SHA25", "X-AWS4-HMAC-SHA256", "Basic AWS4-HMAC-SHA256", "Bearer x AWS4-HMAC-SHA256"][t.below(7)].to_string());
             if header {
                 Rule::HdrAlgorithm
             } else {
